@@ -285,7 +285,12 @@ class SymNum:
         return self
 
     def __abs__(self):
-        return wrap(z3.If(self.e >= 0, self.e, -self.e))
+        # canonical polynomial form, so that |p| and |q| are the same term
+        # whenever p and q are the same polynomial
+        p = self.e
+        if not _has_div(p):
+            p = z3.simplify(p, som=True, som_blowup=1000000)
+        return wrap(z3.If(p >= 0, p, -p))
 
     def __truediv__(self, o):
         if not (isinstance(o, SymNum) or _is_num(o)):
@@ -400,6 +405,21 @@ class SymNum:
     def __repr__(self):
         s = str(self.e)
         return f'Sym({s if len(s) < 80 else s[:77] + "..."})'
+
+
+def _has_div(e) -> bool:
+    seen, stack = set(), [e]
+    while stack:
+        t = stack.pop()
+        k = t.get_id()
+        if k in seen:
+            continue
+        seen.add(k)
+        if z3.is_app(t):
+            if t.decl().kind() == z3.Z3_OP_DIV:
+                return True
+            stack.extend(t.children())
+    return False
 
 
 def _floordiv(a, b):
@@ -580,7 +600,7 @@ def recip_abstract(es, table=None):
         if z3.is_app(t) and t.num_args() > 0:
             ch = [walk(c) for c in t.children()]
             if t.decl().kind() == z3.Z3_OP_DIV:
-                b = z3.simplify(ch[1])
+                b = z3.simplify(ch[1], som=True, som_blowup=1000000)
                 key = b.get_id()
                 if key not in table:
                     table[key] = (z3.Real(f'recip!{len(table)}'), b)
